@@ -314,6 +314,30 @@ fn codegen_xml_serde_content(ops: &Operations, rust_types: &RustTypes, field_typ
     }
 }
 
+/// fields of the struct `ty_name` that are XML attributes of the element holding the struct
+fn xml_attribute_fields<'a>(rust_types: &'a RustTypes, ty_name: &str) -> Vec<&'a rust::StructField> {
+    match rust_types.get(ty_name) {
+        Some(rust::Type::Struct(ty)) => ty.fields.iter().filter(|x| x.xml_attribute).collect(),
+        _ => Vec::new(),
+    }
+}
+
+/// writes an element whose start tag carries the attribute members of its struct
+fn codegen_content_with_attrs(rust_types: &RustTypes, field: &rust::StructField, xml_name: &str, attrs: &[&rust::StructField]) {
+    g!("let attrs = [");
+    if let Some((prefix, uri)) = &field.xml_namespace_prefix {
+        g!("(\"xmlns:{prefix}\", \"{uri}\"),");
+    }
+    for attr in attrs {
+        assert!(attr.option_type.not());
+        assert!(matches!(rust_types[attr.type_.as_str()], rust::Type::StrEnum(_)));
+        let attr_name = attr.xml_name.as_ref().unwrap_or(&attr.camel_name);
+        g!("(\"{}\", val.{}.as_str()),", attr_name, attr.name);
+    }
+    g!("];");
+    g!("s.content_with_attrs(\"{xml_name}\", &attrs, val)?;");
+}
+
 #[allow(clippy::too_many_lines)]
 fn codegen_xml_serde_content_struct(_ops: &Operations, rust_types: &RustTypes, ty: &rust::Struct) {
     if can_impl_serialize_content(&ty.name) {
@@ -324,10 +348,17 @@ fn codegen_xml_serde_content_struct(_ops: &Operations, rust_types: &RustTypes, t
         );
 
         for field in ty.fields.iter().filter(|x| x.position == "xml") {
+            // attributes are written on the start tag by whoever opens the element
+            if field.xml_attribute {
+                continue;
+            }
+
             let xml_name = field.xml_name.as_ref().unwrap_or(&field.camel_name);
+            let attrs = xml_attribute_fields(rust_types, &field.type_);
 
             let field_ty = &rust_types[field.type_.as_str()];
             if let rust::Type::List(list_ty) = field_ty {
+                assert!(xml_attribute_fields(rust_types, &list_ty.member.type_).is_empty());
                 if field.option_type {
                     g!("if let Some(iter) = &self.{} {{", field.name);
                 } else {
@@ -350,6 +381,15 @@ fn codegen_xml_serde_content_struct(_ops: &Operations, rust_types: &RustTypes, t
                 } else {
                     g!("s.timestamp(\"{}\", &self.{}, TimestampFormat::{})?;", xml_name, field.name, fmt);
                 }
+            } else if attrs.is_empty().not() {
+                if field.option_type {
+                    g!("if let Some(ref val) = self.{} {{", field.name);
+                } else {
+                    g!("{{");
+                    g!("let val = &self.{};", field.name);
+                }
+                codegen_content_with_attrs(rust_types, field, xml_name, &attrs);
+                g!("}}");
             } else if field.option_type {
                 g!("if let Some(ref val) = self.{} {{", field.name);
                 g!("s.content(\"{xml_name}\", val)?;");
@@ -388,13 +428,25 @@ fn codegen_xml_serde_content_struct(_ops: &Operations, rust_types: &RustTypes, t
             if field.position == "sealed" {
                 continue;
             }
-            g!("let mut {}: Option<{}> = None;", field.name, field.type_);
+            if field.xml_attribute {
+                let attr_name = field.xml_name.as_ref().unwrap_or(&field.camel_name);
+                assert!(matches!(rust_types[field.type_.as_str()], rust::Type::StrEnum(_)));
+                g!(
+                    "let {}: Option<{}> = d.attribute(\"{}\")?.map({}::from);",
+                    field.name,
+                    field.type_,
+                    attr_name,
+                    field.type_
+                );
+            } else {
+                g!("let mut {}: Option<{}> = None;", field.name, field.type_);
+            }
         }
 
         if ty.fields.is_empty().not() {
             g!("d.for_each_element(|d, x| match x {{");
             for field in &ty.fields {
-                if field.position == "sealed" {
+                if field.position == "sealed" || field.xml_attribute {
                     continue;
                 }
 
